@@ -95,6 +95,8 @@ def gen_case(rng, idx, tier):
         val = float(np.round(rng.uniform(0.3, 3.0), 2))
         chain.append({'op': op, 'v': val, 'left': bool(rng.random() < 0.5)})
     spec['chain'] = chain
+    if fam == 'epw' and depth and rng.random() < 0.6:
+        spec['inside_E'] = int(rng.integers(1, depth + 1))   # this many chain steps inside E()
     spec['use'] = ['le', 'ge', 'eq', 'le', 'ge', 'min', 'max'][int(rng.integers(7))]
     spec['side'] = 'E-left' if rng.random() < 0.5 else 'R-left'
     spec['rhs'] = ['const', 'affine', 'ndarray', 'npfloat', 'affine'][int(rng.integers(5))]
@@ -188,6 +190,10 @@ def atom_expr(spec, d):
         pcs.append(e)
     pw = rso.maxof(*pcs) if spec['pwmax'] else rso.minof(*pcs)
     if fam == 'epw':
+        # E() is linear: a prefix of the chain may be applied inside the expectation
+        k = int(spec.get('inside_E', 0))
+        if k:
+            pw = apply_chain({'chain': spec['chain'][:k]}, pw, d)
         return rso.E(pw)
     return pw
 
@@ -250,7 +256,8 @@ def run_probe(spec, value_rhs, objective, ctx):
     m, x, y, t = d['m'], d['x'], d['y'], d['t']
     stage = 'expr'
     try:
-        E = apply_chain(spec, atom_expr(spec, d), d)
+        E = apply_chain({'chain': spec['chain'][int(spec.get('inside_E', 0)):]}
+                        if spec['family'] == 'epw' else spec, atom_expr(spec, d), d)
         if spec['use'] in ('le', 'ge', 'eq'):
             stage = 'compare'
             R = rhs_obj(spec, d, value_rhs)
